@@ -32,8 +32,12 @@ def raw_script(cl):
             parts.append('p%d,%d,%s' % (op[1], op[2], op[3]))
         elif c == 'w':
             parts.append('w%d,%d' % (op[1], op[2]))
-        elif c in ('r', 'z'):
+        elif c in ('r', 'z', 'R'):
             parts.append('%s%d' % (c, op[1]))
+        elif c == 'C':
+            parts.append('C%d,%s' % (op[1], op[2]))
+        elif c == 'B':
+            parts.append('B' + '/'.join(op[1]))
         else:
             parts.append(c)
     return ';'.join(parts)
